@@ -298,6 +298,7 @@ class Statement(object):
 
             start_address = statements[this_index].code_pkg.address.int
             jump_amount = relative_address - start_address - self.code_pkg.size
+            jump_amount = (jump_amount + 0x8000) % 0x10000 - 0x8000
             self.code_pkg.additional = NumericValue(jump_amount, size_hint=self.pcr_size_hint)
 
 # E N D   O F   F I L E #######################################################
